@@ -144,6 +144,8 @@ def run(ctx, rep):
                     ik = "%s calls %s" % (b["key"], (F.body(callee) or {}).get("name"))
                     if owner.get("unsafe"):
                         rep.ok("R-ASSUME-CALLERS", ik, "caller is unsafe: obligation stays with the client", cfg=tag)
+                    elif _written_before(F, B, b, bi):
+                        rep.ok("R-ASSUME-CALLERS", ik, "the caller writes the payload on every path before declaring it initialised", cfg=tag)
                     else:
                         rep.bad("R-ASSUME-CALLERS", ik, "a safe function declares an uninitialised payload initialised: a client could read or drop slots nobody wrote", F.loc(b, t["span"]), tag)
         if seen == 0:
@@ -158,7 +160,20 @@ def run(ctx, rep):
     rep.floor("R-UNINIT-TY", 5, "five uninitialised constructors")
     rep.floor("R-CAST", 5, "five assume_init functions")
     rep.floor("R-INIT", 1, "header write in from_header_and_uninit_slice")
-    rep.floor("R-PANIC-DECLINE", 3, "must_be_unique and the two deprecated writers")
+
+
+def _written_before(F, B, b, assume_bb):
+    """A write into the payload (UniqueArc::write, ptr::write, copy) dominates the assume_init call."""
+    from .. import atomics
+
+    dom = B.dominators()
+    for bi, t in B.calls():
+        callee = atomics.callee_of(t)
+        name = (F.body(callee) or {}).get("name") or t.get("callee_name")
+        is_write = callee in ("core::ptr::write", "<*mut T>::write", "core::ptr::copy_nonoverlapping", "core::ptr::copy", "<core::mem::maybe_uninit::MaybeUninit<T>>::write") or (name == "write" and callee in F.bodies)
+        if is_write and bi in dom.get(assume_bb, set()) and bi != assume_bb:
+            return True
+    return False
 
 
 def _root(n):
@@ -168,35 +183,9 @@ def _root(n):
 
 
 def _panic_decline(ctx, rep):
-    from .. import atomics
+    from . import c03
 
-    for tag, F, E in ctx.each():
-        A = balance.analysis(tag, F, E)
-        for b in F.body_list:
-            if b.get("name") == "must_be_unique":
-                bad = None
-                n = 0
-                for p in A.paths[b["key"]]:
-                    if p.exit != "ret":
-                        continue
-                    n += 1
-                    tags = [e["detail"].get("tag") for e in p.events if e["kind"] == "CALL" and (F.body(e["detail"].get("callee")) or {}).get("name") == "try_as_unique"]
-                    if tags != ["Ok"]:
-                        bad = p
-                if bad is not None or n == 0:
-                    rep.bad("R-PANIC-DECLINE", b["key"], balance.path_report(F, b, bad, "returns although the handle is shared (must panic instead of granting write access)") if bad else "never returns", F.loc(b), tag)
-                else:
-                    rep.ok("R-PANIC-DECLINE", b["key"], cfg=tag)
-        for h, name in (("Arc", "write"), ("Arc", "as_mut_slice")):
-            for b in F.method(h, name):
-                B = cfg.Body(b)
-                callees = [atomics.callee_of(t) for _bi, t in B.calls()]
-                first = callees[0] if callees else None
-                no_direct = not any(e["kind"] == "DATAREF" and e["detail"]["mut"] for p in A.paths[b["key"]] for e in p.events)
-                if first and (F.body(first) or {}).get("name") == "must_be_unique" and no_direct and b.get("deprecated"):
-                    rep.ok("R-PANIC-DECLINE", b["key"], cfg=tag)
-                else:
-                    rep.bad("R-PANIC-DECLINE", b["key"], "the deprecated writer must obtain `&mut UniqueArc` from the panicking uniqueness check before anything else and never touch the payload directly (first call: %s, direct payload borrow: %s)" % (first, not no_direct), F.loc(b), tag)
+    c03.rule_panic_decline(ctx, rep)
 
 
 def main(argv):
